@@ -443,6 +443,12 @@ def generate(rng, tier):
         t = rtree(rng, big=rng.random() < 0.2)
         cases += cases_for_tree(t, tid, rng, False)
         tid += 1
+    # the XML codec is the only one written in the repository: more trees for it alone
+    for _ in range(450 if quick else 12000):
+        t = rtree(rng, big=rng.random() < 0.3)
+        tag = rng.choice(["config", "config", "cfg", "item", "x-1", "\u00e9"] + list(t))
+        lt = tag if rng.random() < 0.93 else rng.choice(["config", "cfg", tag + "x", tag.upper()])
+        cases.append({"kind": "xml", "dump_tag": tag, "load_tag": lt, "tree": t, "tid": None})
     return cases
 
 
@@ -611,6 +617,9 @@ def oracle(c, obs):
     if k == "xml":
         if "_dumps_exc" in c:
             return bad + ["xml dumps raised %s on an in-domain tree" % c["_dumps_exc"]]
+        for v in walk(c["tree"]):
+            if isinstance(v, float) and (fbits(float(repr(v))) != fbits(v) or not all(32 <= ord(ch) < 127 for ch in repr(v))):
+                bad.append("float text law assumed by the theorems fails: float(repr(x)) != x for %s" % v.hex())
         if not sim(c["_ele"], c["_parsed"]):
             bad.append("ElementTree/minidom law assumed by the theorems fails: the parsed document differs from the element "
                        "tree beyond text of parents / None vs empty text")
